@@ -4,7 +4,10 @@ the 32-byte embedding threshold, small pools so values repeat (shared sub-tries)
 
 ALPHA_ADV = [0x00, 0x01, 0x10, 0x11, 0x12, 0xFF]
 
-VALUE_LENGTHS = [1, 1, 2, 3, 20, 24, 25, 26, 27, 28, 29, 30, 31, 32, 33, 34, 40, 40, 55, 56, 300]
+VALUE_LENGTHS = [1, 1, 2, 3, 20, 24, 25, 26, 27, 28, 29, 30, 31, 32, 33, 34, 40, 40, 55, 56, 300,
+                 1, 2, 30, 31, 32, 33, 40, 254, 255, 256, 257, 1000]
+# RLP's three-byte length form starts at 65536 bytes: rare, expensive, but a real boundary
+HUGE_VALUE_LENGTHS = [65535, 65536, 70000]
 
 
 def key_adv(rnd, maxlen=4):
@@ -28,7 +31,7 @@ def key_nibbly(rnd):
 
 def make_value(rnd, length=None):
     if length is None:
-        length = rnd.choice(VALUE_LENGTHS)
+        length = rnd.choice(HUGE_VALUE_LENGTHS) if rnd.random() < 0.002 else rnd.choice(VALUE_LENGTHS)
     if length == 1:
         return bytes([rnd.choice([0x00, 0x01, 0x61, 0x7F, 0x80, 0x81, 0xFF])])
     c = rnd.choice(b"abcdefgh\x00\x80\xff")
@@ -44,7 +47,7 @@ class KeyUniverse:
     """A small, per-case key universe, so that histories revisit keys (overwrites,
     deletes of present keys) and keys are prefix-related."""
 
-    KINDS = ["adv", "adv", "adv", "chain", "fix3", "k32", "nibbly"]
+    KINDS = ["adv", "adv", "adv", "chain", "fix3", "k32", "nibbly", "adv", "chain", "fix3", "k32", "nibbly", "k40"]
 
     def __init__(self, rnd, kind=None):
         self.rnd = rnd
@@ -62,6 +65,21 @@ class KeyUniverse:
                 if cut % 2:
                     other[nb] = (base[nb] & 0xF0) | (other[nb] & 0x0F)
                 self.pool32.append(bytes(other))
+        if self.kind == "k40":
+            # keys LONGER than a hash (33..40 bytes, a few 64): extension paths of more than 64
+            # nibbles, leaf keys whose hex-prefix encoding alone exceeds 32 bytes
+            n = rnd.choice([33, 34, 40, 40, 64])
+            base = bytes(rnd.randrange(256) for _ in range(n))
+            self.pool32 = [base]
+            for _ in range(rnd.randint(3, 8)):
+                cut = rnd.randrange(0, 2 * n)
+                m = rnd.choice([n, n, n, 33, 40])
+                other = bytearray(rnd.randrange(256) for _ in range(m))
+                nb = min(cut // 2, m)
+                other[:nb] = base[:nb]
+                if cut % 2 and nb < m and nb < n:
+                    other[nb] = (base[nb] & 0xF0) | (other[nb] & 0x0F)
+                self.pool32.append(bytes(other))
         if self.kind == "chain":
             self.chain_base = key_adv(rnd, 2)
 
@@ -72,7 +90,7 @@ class KeyUniverse:
             return key_adv(rnd)
         if k == "fix3":
             return key_fix3(rnd)
-        if k == "k32":
+        if k in ("k32", "k40"):
             return rnd.choice(self.pool32)
         if k == "nibbly":
             return key_nibbly(rnd)
